@@ -1,9 +1,102 @@
-import Fpdec.Lemmas.Dom
+import Fpdec.Lemmas.Wide
+import Fpdec.Props.C03
 import Fpdec.Props.C16_Sites
 
-/-! # C16 — property theorems (under construction: see DESIGN.md section 6) -/
+/-!
+# C16 — Results stay correct when intermediates exceed 128 bits
+
+* The underlying wide operations, for EVERY profile (no plain operation inside overflows, no debug assertion fails):
+  `u128_mul_u128_spec` (`hi·2^128 + lo = x·y`), `u256_idiv_u64_spec`, `u256_idiv_u128_special_spec` (Knuth's algorithm D,
+  4 digits by 2, base 2^64: normalisation loses no bits, both quotient digits are exact after the correction loop — the add-back
+  step is PROVED unnecessary, not assumed —, the wrapping subtractions equal the true partial remainders), `u256_idiv_u128_spec`,
+  `i256_div_mod_floor_spec`, `i128_shifted_div_mod_floor_spec`: `a·b = q·m + r` resp. `a·10^k = q·m + r` with `0 ≤ r < m` (floor
+  quotient, every sign combination, exact divisions included) for every positive `m`, and `None` exactly when the truncated
+  quotient exceeds `i128::MAX`.
+* `wide_mul`, `wide_div` discharge the hypotheses `C02.WideMul` / `C04.WideDiv`, which gives the UNCONDITIONAL statements about
+  `*`, `/`, `mul_rounded`, `div_rounded`, `quantize` below: whenever a product of coefficients or a scaled dividend does not fit
+  128 bits, the result is still exactly the correctly rounded value if that is representable, and the overflow signal otherwise.
+-/
 
 namespace Fpdec.Props.C16
 open Fpdec Fpdec.Model
+
+theorem u128_mul_u128_spec (prof : Profile) (x y : Nat) (hx : x < U128_MOD) (hy : y < U128_MOD) :
+    ∃ rh rl, u128MulU128 prof x y = .ok (rh, rl) ∧ rh * U128_MOD + rl = x * y ∧ rh < U128_MOD ∧ rl < U128_MOD :=
+  u128MulU128_spec prof x y hx hy
+
+theorem u256_idiv_u64_spec (prof : Profile) (xh xl y : Nat) (hxh : xh < U128_MOD) (hxl : xl < U128_MOD)
+    (hy0 : 0 < y) (hy : y < U64_MOD) :
+    ∃ qh ql r, u256IdivU64 prof xh xl y = .ok (qh, ql, r) ∧
+      qh * U128_MOD + ql = (xh * U128_MOD + xl) / y ∧ r = (xh * U128_MOD + xl) % y ∧ qh < U128_MOD ∧ ql < U128_MOD :=
+  u256IdivU64_spec prof xh xl y hxh hxl hy0 hy
+
+theorem u256_idiv_u128_special_spec (prof : Profile) (xh xl y : Nat) (hy : U64_MOD ≤ y) (hy2 : y < U128_MOD)
+    (hxh : xh < y) (hxl : xl < U128_MOD) :
+    ∃ ql r, u256IdivU128Special prof xh xl y = .ok (0, ql, r) ∧
+      ql = (xh * U128_MOD + xl) / y ∧ r = (xh * U128_MOD + xl) % y ∧ ql < U128_MOD :=
+  u256IdivU128Special_spec prof xh xl y hy hy2 hxh hxl
+
+theorem u256_idiv_u128_spec (prof : Profile) (xh xl y : Nat) (hxh : xh < U128_MOD) (hxl : xl < U128_MOD)
+    (hy0 : 0 < y) (hy : y < U128_MOD) :
+    ∃ qh ql r, u256IdivU128 prof xh xl y = .ok (qh, ql, r) ∧
+      qh * U128_MOD + ql = (xh * U128_MOD + xl) / y ∧ r = (xh * U128_MOD + xl) % y ∧ qh < U128_MOD ∧ ql < U128_MOD :=
+  u256IdivU128_spec prof xh xl y hxh hxl hy0 hy
+
+theorem i256_div_mod_floor_spec (prof : Profile) (x1 x2 y : Int)
+    (h1 : I128_MIN < x1 ∧ x1 ≤ I128_MAX) (h2 : I128_MIN < x2 ∧ x2 ≤ I128_MAX) (hy : 0 < y ∧ y ≤ I128_MAX) :
+    i256DivModFloor prof x1 x2 y =
+      .ok (if ((x1 * x2).natAbs / y.natAbs : Nat) ≤ I128_MAX.toNat then some ((x1 * x2) / y, (x1 * x2) % y) else none) :=
+  i256DivModFloor_spec prof x1 x2 y h1 h2 hy
+
+theorem i128_shifted_div_mod_floor_spec (prof : Profile) (x : Int) (p : Nat) (y : Int)
+    (h1 : I128_MIN < x ∧ x ≤ I128_MAX) (hp : p ≤ 38) (hy : 0 < y ∧ y ≤ I128_MAX) :
+    i128ShiftedDivModFloor prof x p y =
+      .ok (if ((x * 10 ^ p).natAbs / y.natAbs : Nat) ≤ I128_MAX.toNat then some ((x * 10 ^ p) / y, (x * 10 ^ p) % y) else none) :=
+  i128ShiftedDivModFloor_spec prof x p y h1 hp hy
+
+/-- the floor quotient/remainder pair returned satisfies the statement's identity -/
+theorem floor_identity (N m : Int) (hm : 0 < m) : N = (N / m) * m + N % m ∧ 0 ≤ N % m ∧ N % m < m := by
+  refine ⟨?_, Int.emod_nonneg N (Int.ne_of_gt hm), Int.emod_lt_of_pos N hm⟩
+  have := Int.mul_ediv_add_emod N m
+  rw [Int.mul_comm] at this
+  omega
+
+theorem wide_mul : C02.WideMul := fun prof x1 x2 y h1 h2 hy => i256DivModFloor_spec prof x1 x2 y h1 h2 hy
+theorem wide_div : C04.WideDiv := fun prof x p y h1 hp hy => i128ShiftedDivModFloor_spec prof x p y h1 hp hy
+
+/-! ### unconditional statements for the operations that use the wide paths -/
+
+theorem mul_correct (prof : Profile) (tm : Mode) (x y : Dec) (hx : Dom x) (hy : Dom y) :
+    Spec.allowedOp (Spec.mul tm x.coeff x.nfrac y.coeff y.nfrac) (outPair (mul prof tm x y)) = true :=
+  C02.mul_spec wide_mul prof tm x y hx hy
+
+theorem mul_rounded_correct (prof : Profile) (tm : Mode) (x y : Dec) (n : Nat) (hx : Dom x) (hy : Dom y) :
+    Spec.allowedOp (Spec.mulRounded tm x.coeff x.nfrac y.coeff y.nfrac n) (outPair (mulRounded prof tm x y n)) = true :=
+  C04.mul_rounded_spec wide_mul prof tm x y n hx hy
+
+theorem div_correct (prof : Profile) (tm : Mode) (x y : Dec) (hx : Dom x) (hy : Dom y) :
+    Spec.allowedOp (Spec.div tm x.coeff x.nfrac y.coeff y.nfrac) (outPair (div prof tm x y)) = true :=
+  C03.div_spec wide_div prof tm x y hx hy
+
+theorem checked_div_correct (prof : Profile) (tm : Mode) (x y : Dec) (hx : Dom x) (hy : Dom y) :
+    Spec.allowedChecked (Spec.div tm x.coeff x.nfrac y.coeff y.nfrac) (outOptPair (checkedDiv prof tm x y)) = true :=
+  C03.checked_div_spec wide_div prof tm x y hx hy
+
+theorem div_rounded_correct (prof : Profile) (tm : Mode) (x y : Dec) (n : Nat) (hx : Dom x) (hy : Dom y) :
+    Spec.allowedOp (Spec.divRounded tm x.coeff x.nfrac y.coeff y.nfrac n) (outPair (divRounded prof tm x y n)) = true :=
+  C04.div_rounded_spec wide_div prof tm x y n hx hy
+
+theorem quantize_correct (prof : Profile) (tm : Mode) (x q : Dec) (hx : Dom x) (hq : Dom q) :
+    Spec.allowedOp (Spec.quantize tm false x.coeff x.nfrac q.coeff q.nfrac) (outPair (quantize prof tm x q)) = true :=
+  C04.quantize_spec wide_mul wide_div prof tm x q hx hq
+
+/-! ### non-vacuity: the hypotheses are satisfiable; exact negative quotient on the wide path (former defect D10) -/
+example : i256DivModFloor Profile.dev (-6) 0 7 = .ok (some (0, 0)) := by
+  rw [i256DivModFloor_spec Profile.dev (-6) 0 7 (by decide) (by decide) (by decide)]; decide
+example : i128ShiftedDivModFloor Profile.release (-1000000000000000000000000000000) 18 100000000000000000000 =
+    .ok (some (-10000000000000000000000000000, 0)) := by
+  rw [i128ShiftedDivModFloor_spec Profile.release _ 18 _ (by decide) (by decide) (by decide)]; decide
+example : Dom ⟨-1000000000000000000000000000000, 0⟩ ∧ Dom ⟨100000000000000000000, 0⟩ ∧
+    Spec.div .floor (-1000000000000000000000000000000) 0 100000000000000000000 0 = .val (-10000000000) 0 := by decide
 
 end Fpdec.Props.C16
